@@ -1,6 +1,7 @@
 (* C05 - the statements quoted by Properties.v, assembled from the Proofs* files. *)
 From Coq Require Import List Arith Bool QArith Qcanon Lia.
-From PV Require Import C05.Model C05.Spec C05.ProofsNum C05.ProofsSpec C05.ProofsModel C05.ProofsSearch.
+From PV Require Import C05.Model C05.Spec C05.ProofsNum C05.ProofsSpec C05.ProofsModel C05.ProofsSearch
+  C05.ProofsMass C05.ProofsExact.
 Import ListNotations.
 Local Open Scope nat_scope.
 
@@ -35,10 +36,10 @@ Proof.
   destruct (live_facts V width fus lm len frames choices Vpos Wpos C) as (I & T & _).
   set (bm := live_beam V width fus lm len frames choices) in *.
   pose proof (inv_wf V bm I) as W. split.
-  - intros i q Hq. destruct (O i q Hq) as (Vi & -> & ->). split; [apply (inv_lt V bm I); auto|].
+  - intros i q Hq. destruct (O i q Hq) as (Vi & _ & -> & ->). split; [apply (inv_lt V bm I); auto|].
     split; [apply pref_length; auto; apply Vi|].
     pose proof (wf_len bm W i) as L. rewrite T, (live_len len frames) in L. exact L.
-  - intros i j q q' Hi Hj E. destruct (O i q Hi) as (Vi & Ei & _). destruct (O j q' Hj) as (Vj & Ej & _).
+  - intros i j q q' Hi Hj E. destruct (O i q Hi) as (Vi & _ & Ei & _). destruct (O j q' Hj) as (Vj & _ & Ej & _).
     apply (inv_dist V bm I); auto. congruence.
 Qed.
 
@@ -90,4 +91,99 @@ Proof.
   intros V width fus lm len frames choices H1 H2 H3.
   pose proof (search_invariant V width fus lm len frames choices H1 H2 H3) as I.
   split; auto. intros. apply (prefix_matrix_iff V); auto.
+Qed.
+
+(* ---- concrete inputs meeting the hypotheses (non-vacuity) -------------------------------------- *)
+
+(* the three frames of tests/test_decoding.py::test_ctc_prefix_search, V = 2 (index 2 = blank) *)
+Definition ex_frames : list (list Qc * Qc) :=
+  [([qc 1 2; qc 1 3], qc 1 6); ([qc 1 3; qc 1 6], qc 1 2); ([qc 1 6; qc 1 2], qc 1 3)].
+
+Definition ex_choices (width len : nat) : list (list nat) :=
+  auto_choices 2 width NoLM no_lm len 0 ex_frames init_beam.
+
+Definition show_mass (m : mass) : option Q :=
+  match m with Fin q => Some (this q) | NegInf => None end.
+
+(* width 2 on all three frames: pruning at frames 2 and 3, a merge at frame 3; the result is
+   the one the test suite pins: [0,1] with 5/24, [0] with 1/6 *)
+Lemma nonvacuous_pruned :
+  choices_ok 2 2 NoLM no_lm 0%Qc 3 0 ex_frames (ex_choices 2 3) init_beam = true /\
+  nothing_pruned 2 2 NoLM no_lm 3 0 ex_frames (ex_choices 2 3) init_beam = false /\
+  (let '(P, Ls, Ps) := observe (search 2 2 NoLM no_lm 3 ex_frames (ex_choices 2 3)) in
+   (P, Ls, map show_mass Ps)) = ([[0; 1]; [0]], [2; 1], [Some (5 # 24)%Q; Some (1 # 6)%Q]).
+Proof. vm_compute. repeat split. Qed.
+
+(* width 9, element of length 2 inside a batch of 3 frames: nothing is pruned, all 7 prefixes
+   are returned (two of them with zero mass), and the two remaining slots are invalid *)
+Lemma nonvacuous_unpruned :
+  choices_ok 2 9 NoLM no_lm 0%Qc 2 0 ex_frames (ex_choices 9 2) init_beam = true /\
+  nothing_pruned 2 9 NoLM no_lm 2 0 ex_frames (ex_choices 9 2) init_beam = true /\
+  (let '(P, Ls, Ps) := observe (search 2 9 NoLM no_lm 2 ex_frames (ex_choices 9 2)) in
+   (P, map show_mass Ps))
+  = ([[0]; [1]; [1; 0]; [0; 1]; []; [0; 0]; [1; 1]; [0]; [1]],
+     [Some (17 # 36)%Q; Some (1 # 4)%Q; Some (1 # 9)%Q; Some (1 # 12)%Q; Some (1 # 12)%Q;
+      Some 0%Q; Some 0%Q; None; None]).
+Proof. vm_compute. repeat split. Qed.
+
+Lemma nth_nonneg : forall l v, Forall (fun x => (0 <= x)%Qc) l -> (0 <= nth v l 0%Qc)%Qc.
+Proof.
+  induction l; intros v H; destruct v; cbn [nth]; try apply qle_00; inversion H; subst; auto.
+Qed.
+
+Definition frame_nonneg (f : list Qc * Qc) : Prop :=
+  Forall (fun x => (0 <= x)%Qc) (fst f) /\ (0 <= snd f)%Qc.
+
+Lemma frames_nonneg_nth : forall (L : list sframe) t, Forall frame_nonneg L ->
+  frame_nonneg (nth t L ([], 0%Qc)).
+Proof.
+  induction L; intros t H; destruct t; cbn [nth]; try (split; [constructor|apply qle_00]);
+    inversion H; subst; auto.
+Qed.
+
+Lemma nolm_nonneg_forall : forall (L : list sframe), Forall frame_nonneg L ->
+  nonneg_frames L (fused_score NoLM no_lm L).
+Proof.
+  intros L H. apply nolm_nonneg; intros t; try intros v; destruct (frames_nonneg_nth L t H); auto.
+  apply nth_nonneg. auto.
+Qed.
+
+Lemma Forall_firstn_own : forall {A} (P : A -> Prop) n l, Forall P l -> Forall P (firstn n l).
+Proof.
+  induction n; intros l H; cbn [firstn]; [constructor|]. destruct l; [constructor|].
+  inversion H; subst. constructor; auto.
+Qed.
+
+Lemma nonvacuous_nonneg : forall len,
+  nonneg_frames (firstn len ex_frames) (fused_score NoLM no_lm (firstn len ex_frames)).
+Proof.
+  intros len. apply nolm_nonneg_forall. apply Forall_firstn_own.
+  unfold ex_frames, frame_nonneg. repeat constructor; cbn [fst snd]; apply Qle_bool_iff; reflexivity.
+Qed.
+
+(* one frame, one label: the candidates are [] (mass 1/4) and [0] (mass 3/4); width 1 keeps
+   [0] and drops [], width 2 keeps both *)
+Definition ex1 : list sframe := [([qc 3 4], qc 1 4)].
+
+Lemma ex1_cands : cand_prefixes 1 pbs_init = [[]; [0]].
+Proof. reflexivity. Qed.
+
+Lemma nonvacuous_pbs_pruned :
+  pbs_reach 1 1 ex1 (plain_score ex1) 1 [new_entry 1 ex1 (plain_score ex1) 0 pbs_init [0]].
+Proof.
+  apply pbs_S with (B := pbs_init); [constructor|].
+  unfold pbs_keeps, pbs_cands. rewrite ex1_cands. cbn [map].
+  split; [repeat constructor; intros []|]. split; [intros e [<-|[]]; right; left; reflexivity|].
+  split; [cbn; lia|].
+  intros c [<-|[<-|[]]] NI.
+  - split; [reflexivity|]. intros e [<-|[]]. apply Qle_bool_iff. reflexivity.
+  - exfalso. apply NI. left. reflexivity.
+Qed.
+
+Lemma nonvacuous_pbs_full :
+  pbs_full 1 ex1 (plain_score ex1) 1 (pbs_cands 1 ex1 (plain_score ex1) 0 pbs_init).
+Proof.
+  apply pbsf_S with (B := pbs_init); [constructor| |apply incl_refl|apply incl_refl].
+  unfold pbs_cands. rewrite ex1_cands. cbn [map]. rewrite !new_entry_fst.
+  repeat constructor; cbn; intuition discriminate.
 Qed.
